@@ -363,6 +363,27 @@ func run(c *core.Ctx) {
 		r.EOF = explore.Pick(x, "eof", 0, 1, 2)
 		cs = Case{Doc: d, Render: r}
 	}, visit("index"))
+	// (1d) markup state across lines and cues: two cues, each <=2 lines of one run, three styles, tags kept open
+	// lazily / left unterminated at the end of a cue / upper-case / each colour quoting: a style must never leak
+	// into the next cue and must carry over lines exactly as the tags say
+	explore.Explore(-1, func(x *explore.C) {
+		var d srt.Doc
+		sts := []srt.Style{{}, {B: true}, {I: true, Color: "#00ff00"}}
+		for k := 0; k < 2; k++ {
+			cue := srt.Cue{Start: int64(k+1) * 2000, End: int64(k+1)*2000 + 1000}
+			nl := explore.Pick(x, "nlines", 1, 2)
+			for l := 0; l < nl; l++ {
+				cue.Lines = append(cue.Lines, srt.Line{{Text: "x", Style: explore.Pick(x, "style", sts...)}})
+			}
+			d = append(d, cue)
+		}
+		r := srt.DefaultRender(2)
+		r.Lazy = x.Bool("lazy")
+		r.LeaveOpen = x.Bool("leaveopen")
+		r.UpperTags = x.Bool("upper")
+		r.ColorQuote = x.Choose("quote", 3)
+		cs = Case{Doc: d, Render: r}
+	}, visit("markup"))
 	// (2) deviation ball around the baseline document over all model and rendering choice points
 	explore.Explore(bound, func(x *explore.C) { cs = gen(x, full, false) }, visit("ball"))
 	if c.Tier == core.Thorough {
@@ -391,7 +412,7 @@ func init() {
 		ID: "C01", Level: "exploration",
 		Rule: "a case = (ground-truth cue model, rendering choices) chosen by the E1 explorer: full cartesian product of a tiny grammar plus every document within B deviations from the baseline over all model and rendering choice points (cue count, instants, lines, runs, 7 styles, 18 text atoms; EOL, BOM, index form, blank lines, EOF form, separator, fraction digits, hour digits, arrow spacing, coordinates, lazy/unterminated tags, tag case, colour quoting, line padding, nbsp form); read direction: ReadFromSRT(render(model)) must denote the model; write direction: WriteToSRT(model) must satisfy the grammar and denote the model to the library reader and to an independent decoder; non-trivial = non-baseline case, distinct by (denotation, rendering)",
 		Scope: map[core.Tier]string{
-			core.Quick:    "core product (1 cue x <=2 lines x <=2 runs x 3 styles x 3 texts x EOL x index x EOF form x lazy tags) + 3-run product (3 styles x 5 texts incl. no-break-space-only) + index product (2 cues x 4 index forms each x digit-only lines x blank lines x EOL x EOF) + deviation ball B=2 (<=2 cues, <=2 lines, <=2 runs)",
+			core.Quick:    "core product (1 cue x <=2 lines x <=2 runs x 3 styles x 3 texts x EOL x index x EOF form x lazy tags) + 3-run product (3 styles x 5 texts incl. no-break-space-only) + index product (2 cues x 4 index forms each x digit-only lines x blank lines x EOL x EOF) + markup-state product (2 cues x <=2 lines x 3 styles x lazy/unterminated/upper-case tags x colour quoting) + deviation ball B=2 (<=2 cues, <=2 lines, <=2 runs)",
 			core.Thorough: "core product + 3-run product + deviation ball B=3 (<=3 cues, <=3 lines, <=3 runs) + B=4 on the <=2 profile",
 		},
 		Assumptions: []string{"Go toolchain and standard library", "independent reference codec engine/ref/srt", "white-space-only runs and outer line white space are outside the SubRip denotation (the format cannot carry them)"},
